@@ -8,7 +8,7 @@ R18.3 shape-of-request refusals dominate the first write of their route.
 """
 import ast
 
-from ..model import AnalysisError, callee, norm, src, walk_no_nested, iter_child_stmts
+from ..model import AnalysisError, callee, norm, src, walk_no_nested, iter_child_stmts, before
 from ..cfg import CFG
 from .. import effects as fx
 from . import append_route as ar
@@ -86,8 +86,15 @@ def run(ctx):
     _overwrite_order(ctx)
     # R18.3
     ar.compat_checks_rule(ctx, 'R18.3')
+    ar.index_normalisation_rule(ctx, 'R18.3b')
     _validate_early(ctx)
     _filter_validation(ctx)
+    # refused metadata updates and refused merges must leave the target as it was (shared with C16 / C14)
+    from . import c16, c14
+    c16.r161(ctx, wr_mod(ctx))
+    c16.r163(ctx, wr_mod(ctx))
+    c16.r164(ctx, wr_mod(ctx))
+    c14.r141(ctx)
     from . import callsigs as _cs
     _cs.general_rules(ctx, 'R18', ['writer.write', 'writer.overwrite', 'writer.write_simple', 'writer.write_multi', 'writer.partition_on_columns', 'writer.make_part_file', 'writer.make_row_group', 'api.ParquetFile.write_row_groups', 'api.ParquetFile.remove_row_groups', 'api.ParquetFile.to_pandas', 'writer.write_common_metadata', 'writer.consolidate_categories'])
     ar.open_close_pairing_rule(ctx, 'R18.4')
@@ -164,8 +171,12 @@ def _validate_early(ctx):
     bad = [s for s in iter_child_stmts(f.body) if isinstance(s, ast.Raise) and 'File scheme should be' in src(s)]
     ok = len(bad) == 1 and all(cfg.exists_path(cfg.node_of(bad[0]), cfg.node_of(w)) is False and
                                not cfg.exists_path(cfg.node_of(w), cfg.node_of(bad[0])) for w in writers)
-    ctx.ob('R18.3', 'writer.write:file-scheme-validated-first', len(bad) == 1 and
-           all(not cfg.exists_path(cfg.node_of(w), cfg.node_of(bad[0])) for w in writers), '', wr.loc(f))
+    app = _call_stmt(f, 'pf.write_row_groups') + _call_stmt(f, 'overwrite')
+    outer = [norm(e.test) for e, fld in cfg.enclosing_tests(bad[0]) if isinstance(e, ast.If)] if bad else ['?']
+    ctx.ob('R18.3', 'writer.write:file-scheme-validated-first', len(bad) == 1 and len(outer) == 1 and
+           all(not cfg.exists_path(cfg.node_of(w), cfg.node_of(bad[0])) for w in writers + app) and
+           all(cfg.exists_path(cfg.node_of(bad[0]), cfg.node_of(w)) or True for w in app),
+           'the scheme test must be unconditional (it guards the append and overwrite routes too): enclosing tests %s' % outer, wr.loc(f))
     # make_metadata: type discovery for every column happens here (find_type raises)
     mm = wr.func('make_metadata')
     ft = [c for c in ast.walk(mm) if isinstance(c, ast.Call) and callee(c) == 'find_type']
@@ -179,7 +190,7 @@ def _validate_early(ctx):
            'non-text names are refused by get_column_metadata inside the column loop', wr.loc(mm))
     dup = [s for s in iter_child_stmts(mm.body) if isinstance(s, ast.If) and norm(s.test) == 'not data.columns.is_unique']
     ctx.ob('R18.3', 'writer.make_metadata:duplicate-names-refused-before-schema-building',
-           len(dup) == 1 and loops and mm.body.index(dup[0]) < mm.body.index(loops[0]), '', wr.loc(mm))
+           len(dup) == 1 and bool(loops) and before(mm.body, dup[0], loops[0]), '', wr.loc(mm))
     # the append route validates against the existing file before write_row_groups
     api = ctx.repo['api']
     tp = api.func('ParquetFile.to_pandas')
@@ -188,3 +199,7 @@ def _validate_early(ctx):
     pre = _call_stmt(tp, 'self.pre_allocate')
     ok = len(chk) == 1 and len(pre) == 1 and cfg.dominates(cfg.node_of(chk[0]), cfg.node_of(pre[0]))
     ctx.ob('R18.3', 'api.to_pandas:unknown-column-refused-before-reading', ok, '', api.loc(tp))
+
+
+def wr_mod(ctx):
+    return ctx.repo['writer']
